@@ -238,6 +238,35 @@ METHOD_BODIES = [
 ]
 
 
+# fields whose names differ only in what a NAME-MANGLING scheme might throw away (case, underscores, `r#`, a trailing underscore, digits
+# vs words): the bindings made for them must stay distinct - each pattern is checked against its own field.  Every pair is
+# asserted both ways round, with values that tell the two fields apart; (first field, second field)
+NEAR_DECLS = r"""
+#[derive(Debug)] struct NearNames { userId: i32, user_id: i32, URL: i32, url: i32, _id: i32, id: i32, r#type: i32, type_: i32, a__b: i32, a_b: i32, x1: i32, x_1: i32,
+  userID: i32, HTTPServer: i32, http_server: i32 }
+fn near() -> NearNames { NearNames { userId: 1, user_id: 2, URL: 3, url: 4, _id: 5, id: 6, r#type: 7, type_: 8, a__b: 9, a_b: 10, x1: 11, x_1: 12, userID: 13, HTTPServer: 14, http_server: 15 } }
+#[derive(Debug)] enum NearVariant { V { userId: i32, user_id: i32, id: i32, _id: i32 } }
+"""
+NEAR_PAIRS = [("userId", "user_id", 1, 2), ("URL", "url", 3, 4), ("_id", "id", 5, 6), ("r#type", "type_", 7, 8), ("a__b", "a_b", 9, 10), ("x1", "x_1", 11, 12),
+              ("userId", "userID", 1, 13), ("HTTPServer", "http_server", 14, 15), ("user_id", "userID", 2, 13)]
+
+
+def near_name_programs():
+    out = []
+    for f, g, vf, vg in NEAR_PAIRS:
+        for a, b, va, vb in ((f, g, vf, vg), (g, f, vg, vf)):
+            out.append(("`%s` then `%s`, each with its own value" % (a, b), "let s = near(); assert_struct!(s, NearNames { %s: %d, %s: %d, .. });" % (a, va, b, vb), "pass"))
+            out.append(("`%s` then `%s`, the second with the FIRST one's value" % (a, b), "let s = near(); assert_struct!(s, NearNames { %s: %d, %s: == %d, .. });" % (a, va, b, va), "fail"))
+            out.append(("`%s` with a method chain then `%s`" % (a, b), "let s = near(); assert_struct!(s, NearNames { %s.clone(): %d, %s: > %d, .. });" % (a, va, b, vb - 1), "pass"))
+    out.append(("struct variant with near names", "let s = NearVariant::V { userId: 1, user_id: 2, id: 3, _id: 4 }; assert_struct!(s, NearVariant::V { userId: 1, user_id: 2, id: 3, _id: 4 });", "pass"))
+    out.append(("struct variant with near names, one wrong", "let s = NearVariant::V { userId: 1, user_id: 2, id: 3, _id: 4 }; assert_struct!(s, NearVariant::V { userId: 1, user_id: 1, id: 3, _id: 4 });", "fail"))
+    return out
+
+
+def near_program(body):
+    return e2e.PRELUDE + NEAR_DECLS + "fn main() { std::panic::set_hook(Box::new(|_| {})); run_case(\"t\", || { %s }); }\n" % body
+
+
 def method_program(name, body):
     return (e2e.PRELUDE + METHOD_DECLS.format(M=name) + "fn main() {{ std::panic::set_hook(Box::new(|_| {{}})); run_case(\"t\", || {{ %s }}); }}\n".replace("{{", "{").replace("}}", "}")
             % body.format(M=name))
@@ -373,6 +402,20 @@ def run(res):
                                   % (n, d, v), {"method_twin": True, "name": n, "where": d, "body": b, "rustc": o["stderr"][-700:] if v == "does-not-compile" else ""})
     res.streams["method-twins"] = {"traits_imported_by_the_expansion": mtraits, "method_names": mnames, "shadowed_even_outside_assertions": skipped,
                                    "places": len(METHOD_BODIES) - 1, "differing": method_bad}
+    # fields with near-identical names
+    near = near_name_programs()
+    nout = e2e.compile_many([near_program(b) for _, b, _ in near], run=True, tag="c07n")
+    e2e.cleanup("c07n")
+    near_bad = 0
+    for (d, b, want), o in zip(near, nout):
+        v = e2e.parse_case_lines(o.get("stdout", "")).get("t", {}).get("verdict") if o["compiled"] else "does-not-compile"
+        if v != want:
+            near_bad += 1
+            twin_bad += 1
+            if near_bad <= 3:
+                res.violation("failing-input", "fields with near-identical names (%s): the assertion %s, each pattern checked against its own field it must %s"
+                              % (d, v, want), {"near_name_body": b, "want": want, "rustc": o["stderr"][-600:] if v == "does-not-compile" else ""})
+    res.streams["near-name-fields"] = {"programs": len(near), "wrong": near_bad}
     e2e.cleanup("c07")
     res.streams["twins"] = {"pairs": len(tw), "differing": twin_bad}
     expstage.report_disagreement(res, name, dis, failing > 0 or twin_bad > 0)
@@ -390,6 +433,12 @@ def run(res):
 
 def replay(res, path):
     v = json.load(open(path))
+    if v.get("near_name_body"):
+        o = e2e.compile_many([near_program(v["near_name_body"])], run=True, tag="c07r")[0]
+        e2e.cleanup("c07r")
+        got = e2e.parse_case_lines(o.get("stdout", "")).get("t", {}).get("verdict") if o["compiled"] else "does-not-compile"
+        print("verdict:", got, "wanted:", v["want"])
+        return 1 if got != v["want"] else 0
     if v.get("method_twin"):
         out = e2e.compile_many([method_program(v["name"], v["body"]), method_program("zz_fresh_method", v["body"])], run=True, tag="c07r")
         vs = [(e2e.parse_case_lines(o.get("stdout", "")).get("t", {}).get("verdict") if o["compiled"] else "does-not-compile") for o in out]
